@@ -4,6 +4,8 @@ package checks
 
 import (
 	"fmt"
+	"reflect"
+	"runtime/debug"
 	"strings"
 	"time"
 
@@ -197,6 +199,19 @@ func c18Explore(shard, nshards int, tier string) c18Result {
 				}
 			}
 		}
+		// history prefix ("error first, success later"): before the schedules of a job are explored, every
+		// operation is called once on the ZERO value of the same type - the error paths. What they leave behind
+		// in process-wide state (a pooled buffer released twice, a half-initialised cache) is then in place
+		// when the logical threads run. The garbage collector is held off for the duration of a job so that
+		// runtime-managed pools are not emptied between the prefix and the schedules.
+		zero := c18Value{name: v.name, v: reflect.New(reflect.TypeOf(v.v).Elem()).Interface()}
+		zeroOps := c18Ops(zero)
+		prime := func() {
+			for _, op := range zeroOps {
+				core.Guard(func() { op.run() })
+			}
+		}
+		prime()
 		shared := c18Shared(v)
 		h0 := snap.Hash(shared, c18SnapOpts)
 		var jobs []job
@@ -248,6 +263,8 @@ func c18Explore(shard, nshards int, tier string) c18Result {
 			}
 			scen := typeOfName(v.name) + "|" + strings.Join(names, "+")
 			reported := false
+			gcWas := debug.SetGCPercent(-1)
+			prime()
 			st, capped := choose.Explore(bound, 1, func() bool { return time.Now().After(deadline) }, func(c *choose.Ctx) {
 				s := runSchedule(c, sel, limits)
 				res.States += s.points
@@ -273,6 +290,7 @@ func c18Explore(shard, nshards int, tier string) c18Result {
 					mk("shared-state-changed", "after the interleaved calls the receiver graph / package-level state differs from its initial snapshot")
 				}
 			})
+			debug.SetGCPercent(gcWas)
 			res.Evaluations += st.Executions
 			res.Traces += st.Executions
 			res.Transitions += st.Transitions
